@@ -10,19 +10,35 @@ CFG = {
             "are random CSI (all finals of handleSequence x intermediates x 0-6 params incl. empty lists the parser "
             "cannot produce), every reply shape as parsed, DCS/APC/OSC variants; stream cases: 1-40 grammar-level reports "
             "(legacy+kitty keys, SGR mouse, focus, paste with content, every reply shape complete/repeated/truncated) or "
-            "1-30 garbage fragments, injected as bytes, sentinel appended; non-trivial = a seq/end line, distinct by case ops",
+            "1-30 garbage fragments, injected as bytes, sentinel appended; query cases: the real CursorPosition / reportWinsize / "
+            "ClipboardPop against a console that answers or stays silent; race cases: CursorPosition against its 50 ms time-out with the "
+            "input goroutine held at a yield point after it has taken the request flag (reply-first / timeout-first / recall); cquery "
+            "cases: the real QueryColor / QueryForeground / QueryBackground against replies of every XParseColor digit count, what "
+            "Sscanf also accepts, malformed bodies, other prefixes, optionally after an unsolicited reply; non-trivial = a "
+            "seq/end/query/race/cquery line, distinct by case ops",
     "trusted_base": ["decodeKey (C09) is an opaque oracle: key events are compared by the token the real decodeKey gives for the same sequence",
                      "base64.StdEncoding.DecodeString is a parameter of the model (value supplied by the harness)",
-                     "the parsed sequences given to the model in stream cases come from a second real ansi.Parser run on the same bytes"],
+                     "the parsed sequences given to the model in stream cases come from a second real ansi.Parser run on the same bytes",
+                     "fmt.Sscanf / strconv.ParseInt are modelled only for the format shape of the three colour requesters (literal + %x/%x/%x into ints); "
+                     "the library itself is trusted, the model of it is validated by the cquery correspondence"],
     "assumptions": ["the application keeps receiving from Events() (PostEventBlocking blocks by design otherwise)",
                     "real time abstracted: time-outs are nondeterministic labels of the LTS",
                     "runes delivered by the parser are valid code points (string([]rune) is the identity)"],
-    "level_text": "Input loop: mouse_exact, handle_total, replies_internal, events_exact, never_wedges proved over the hand model of "
-                  "handleSequence/parseMouseEvent and the LTS of the reply hand-offs; model tied to the source by Gen/Caps.lean "
-                  "(switch skeleton, send kinds, guards) and by correspondence on direct and end-to-end cases.",
-    "level_note": "Proved: statements about the model for all sequences / all reachable LTS states. Validated by correspondence only: "
-                  "model = handleSequence (direct hook) and = the whole pipeline (fake console -> parser -> input goroutine -> Events()). "
-                  "Modelled, not verified: real-time behaviour of time-outs; key decoding (C09); the parser (C02/C08).",
+    "level_text": "Proved over the hand model of handleSequence/parseMouseEvent and the LTS of the input goroutine, event queue, reply "
+                  "channels and requesters: mouse_exact, handle_total, replies_internal, events_exact, never_wedges (unconditional: every "
+                  "reachable state, any requester activity), flow_preserved / input_never_lost (any schedule and queue capacity), "
+                  "input_never_lost_any_requester (also with CursorPosition calls and time-outs at any moment, for streams whose keys are "
+                  "not CSI..R), flag_lowered_only_by, and for the colour requesters query_reply_parsed / exact_8bit / "
+                  "exact_16bit_repeated / rejected over a model of their Sscanf parse. Tied to the source by Gen/Caps.lean (switch "
+                  "skeleton, send kinds, guards, channel capacities, CursorPosition and Query* statement lists, the atomic take of the "
+                  "request flag) and by correspondence on direct, end-to-end, query, race (yield point) and colour-query cases.",
+    "level_note": "Proved: statements about the model for all sequences / all reachable LTS states / all reply texts of the stated shape. "
+                  "Validated by correspondence only: model = handleSequence (direct hook), = the whole pipeline (fake console -> parser -> "
+                  "input goroutine -> Events()), = the real requesters (CursorPosition incl. the three forced schedules, reportWinsize, "
+                  "ClipboardPop, QueryColor/Foreground/Background incl. the Sscanf model). False of the code and recorded: F303 (colour "
+                  "answers keep the low byte of each channel; Witness/F303). Modelled, not verified: real-time behaviour of time-outs; "
+                  "key decoding (C09); the parser (C02/C08); fmt/strconv outside the modelled format shape. By design, not judged: a "
+                  "CSI r;c R report is a reply or a key depending on the request flag (no query ids in DSR 6).",
     "technique": "Lean 4 proof over an executable model + LTS invariants; go/ast extractor; differential harness with sentinel liveness",
     "timeout": 3000,
 }
